@@ -90,7 +90,7 @@ def doRun (a : Json) : Except String Json := do
   let expJ := match exp with
     | .answered s => J.obj [("kind", Json.str "answered"), ("status", J.nat s)]
     | .forward id => J.obj [("kind", Json.str "forward"), ("id", encodeIdentity id),
-        ("keysLower", J.bool (extraKeysLower id)), ("carried", J.bool (valuesCarried upgrade id))]
+        ("carried", J.bool (valuesCarried upgrade id))]
   let judgeImpl ← match J.optObj a "observed" with
     | none => pure Json.null
     | some o => do
